@@ -38,7 +38,12 @@ Definition const_ok (tbl : list (string * N)) (p : string * N) : bool :=
 
 Definition consts_ok : bool := forallb (const_ok ctrl_consts) ctrl_consts.
 
-(** how many constants the LSB rule actually constrains (non-vacuity) *)
+(** how many constants the LSB rule actually constrains (non-vacuity); constants whose
+    initialiser is not a literal are outside the table and tied by the correspondence only *)
 Definition lsb_constrained : nat :=
   List.length (filter (fun p => match lsb_expected ctrl_consts (fst p) with Some _ => true | None => false end)
             ctrl_consts).
+Definition lsb_unparsed : nat :=
+  List.length (filter (ends_with "_LSB") ctrl_const_unparsed).
+
+Definition lsb_suffix : string := "_LSB".
